@@ -153,6 +153,22 @@ pub fn run(tier: Tier) -> ! {
         }
     });
     chk.set("part_i_texts", json!(texts.len()));
+    // (i') enriched alphabet at shorter length: characters whose low byte equals a delimiter
+    // (U+0120 / U+012F / U+015C / U+012D / U+017C), non-ASCII whitespace (U+3000, U+0085), a tab,
+    // one character per UTF-8 length
+    let enriched = ['a', ' ', '/', '\\', 'Ġ', 'į', 'Ŝ', 'ĭ', 'ż', '\u{3000}', '\t', 'é', 'あ', '𠀋', '\u{85}'];
+    let texts_e = gen::strings(&enriched, 1, tier.pick(3, 4));
+    texts_e.par_iter().for_each(|text| {
+        for labels in gen::vectors(2, text.len() - 1) {
+            let nt = labels.iter().filter(|&&l| l == 1).count() + 1;
+            report(text, &labels, &vec![vec![]; nt]);
+            // and the same string as the tag of a single token
+            if labels.iter().all(|&l| l == 0) {
+                report(&['x'], &[], &[vec![Some(gen::s(text))]]);
+            }
+        }
+    });
+    chk.set("part_i_enriched_texts", json!(texts_e.len()));
     // (ii) 1-3 tokens x every per-token tag list
     let tagpool: Vec<Option<&str>> = vec![None, Some("x"), Some("/"), Some("\\"), Some(" "), Some("あ"), Some("a/b"), Some("x "), Some("あ/𠀋\\"), Some("\u{3000}\t")];
     let surfaces: [&[char]; 3] = [&['a'], &['あ', 'b'], &['/', ' ']];
